@@ -353,9 +353,17 @@ theorem getRecGo_eq_valAt : ∀ (ks : List String) (d : Slots), getRecGo names d
       | leaf a => simp [valAt]
       | dict l => simp [getRecGo_eq_valAt (k' :: rest) l]
 
-theorem getRecursively_eq_valAt (d : Slots) (k : KeyArg) :
-    getRecursively names d k = valAt names (.dict d) k.keys := by
-  rw [getRecursively, getRecGo_eq_valAt]
+/-- `SelectContext.__call__` is the reference semantics `selCtxSem` -/
+theorem call_selCtx (k : KeyArg) (p : Val → Res) (r : Bool) (v : Item) :
+    call names (.selCtx k p r) v = selCtxSem names k p r v := by
+  rw [call, getRecursively, selCtxSem]
+  cases k.resolve with
+  | keys ks =>
+    simp only [getRecGo_eq_valAt]
+    cases valAt names (.dict (v.context names.length)) ks <;> rfl
+  | never => rfl
+  | valueError => rfl
+  | typeError => rfl
 
 theorem semAny_eq_orRes (r : Bool) (l : List Spec) (v : Item) :
     semAny names r l v = orRes (l.map (fun s => sem names r s v)) := by
@@ -423,7 +431,7 @@ theorem mk_sem : ∀ (s : Spec) (r : Bool) (o : Obj) (v : Item),
     simp [call, sem, (items_sem l r' os v hos).2]
   | .selCtx k p r', r, o, v, h => by
     simp [mkSelector, Spec.isInst, inner] at h; subst h
-    cases hg : valAt names (.dict (v.context names.length)) k.keys <;> simp [call, sem, getRecursively_eq_valAt, hg]
+    rw [call_selCtx, sem]
   | .bad, r, o, v, h => by
     simp [mkSelector, Spec.isInst, inner] at h
 theorem items_sem : ∀ (l : List Spec) (r : Bool) (os : List Obj) (v : Item),
@@ -501,45 +509,94 @@ theorem absorb_false_ok (x : Res) : absorb false x = .ok (decide (x = .ok true))
   | ok b => cases b <;> simp [absorb]
   | raise e => simp [absorb]
 
+theorem res_ok_decide {x : Res} {b : Bool} (h : x = .ok b) : x = .ok (decide (x = .ok true)) := by
+  subst h; cases b <;> simp
+
+theorem selCtxSem_false_ok' (k : KeyArg) (p : Val → Res) (v : Item)
+    (hk : (match k.resolve with | .valueError => false | .typeError => false | _ => true) = true) :
+    ∃ b, selCtxSem names k p false v = .ok b := by
+  unfold selCtxSem
+  cases hr : k.resolve with
+  | keys ks =>
+    simp only []
+    cases valAt names (.dict (v.context names.length)) ks with
+    | none => exact ⟨false, rfl⟩
+    | some sub => exact ⟨_, absorb_false_ok _⟩
+  | never => exact ⟨false, rfl⟩
+  | valueError => simp [hr] at hk
+  | typeError => simp [hr] at hk
+
+theorem selCtxSem_false_ok (k : KeyArg) (p : Val → Res) (v : Item)
+    (hk : (match k.resolve with | .valueError => false | .typeError => false | _ => true) = true) :
+    selCtxSem names k p false v = .ok (decide (selCtxSem names k p false v = .ok true)) := by
+  obtain ⟨b, hb⟩ := selCtxSem_false_ok' names k p v hk
+  exact res_ok_decide hb
+
+theorem selCtxSem_of_isOk' (k : KeyArg) (p : Val → Res) (v : Item)
+    (h : (selCtxSem names k p true v).isOk = true) : ∃ b, ∀ r, selCtxSem names k p r v = .ok b := by
+  unfold selCtxSem at h ⊢
+  cases hr : k.resolve with
+  | keys ks =>
+    simp only [hr] at h ⊢
+    cases hv : valAt names (.dict (v.context names.length)) ks with
+    | none => exact ⟨false, fun _ => rfl⟩
+    | some sub =>
+      simp only [hv] at h ⊢
+      cases hp : p sub with
+      | ok b => exact ⟨b, fun r => by cases r <;> rfl⟩
+      | raise e => simp [hp, absorb, Res.isOk] at h
+  | never => exact ⟨false, fun _ => rfl⟩
+  | valueError => simp [hr, Res.isOk] at h
+  | typeError => simp [hr, Res.isOk] at h
+
+theorem selCtxSem_of_isOk (k : KeyArg) (p : Val → Res) (v : Item)
+    (h : (selCtxSem names k p true v).isOk = true) (r : Bool) :
+    selCtxSem names k p r v = .ok (decide (selCtxSem names k p false v = .ok true)) := by
+  obtain ⟨b, hb⟩ := selCtxSem_of_isOk' names k p v h
+  rw [hb r, hb false]
+  cases b <;> simp
+
 mutual
-theorem sem_false : ∀ (s : Spec) (v : Item), s.allRoe false = true → s.hasBad = false →
+theorem sem_false : ∀ (s : Spec) (v : Item), s.allRoe false = true → s.keysOk = true → s.hasBad = false →
     sem names false s v = .ok (semB names s v)
-  | .str _, v, _, _ | .cls _, v, _, _ => by simp [sem, semB]
-  | .fn f, v, _, _ => by simp [sem, semB, absorb_false_ok]
-  | .list l, v, ha, hb => by
-    simp only [Spec.allRoe, Spec.hasBad] at ha hb
-    simp [sem, semB, (semL_false l v ha hb).2, absorb]
-  | .tuple l, v, ha, hb => by
-    simp only [Spec.allRoe, Spec.hasBad] at ha hb
-    simp [sem, semB, (semL_false l v ha hb).1, absorb]
-  | .notI s r, v, ha, hb => by
-    simp only [Spec.allRoe, Spec.hasBad, Bool.and_eq_true, beq_iff_eq] at ha hb
+  | .str _, v, _, _, _ | .cls _, v, _, _, _ => by simp [sem, semB]
+  | .fn f, v, _, _, _ => by simp [sem, semB, absorb_false_ok]
+  | .list l, v, ha, hk, hb => by
+    simp only [Spec.allRoe, Spec.hasBad, Spec.keysOk] at ha hb hk
+    simp [sem, semB, (semL_false l v ha hk hb).2, absorb]
+  | .tuple l, v, ha, hk, hb => by
+    simp only [Spec.allRoe, Spec.hasBad, Spec.keysOk] at ha hb hk
+    simp [sem, semB, (semL_false l v ha hk hb).1, absorb]
+  | .notI s r, v, ha, hk, hb => by
+    simp only [Spec.allRoe, Spec.hasBad, Spec.keysOk, Bool.and_eq_true, beq_iff_eq] at ha hb hk
     obtain ⟨rfl, ha⟩ := ha
-    simp [sem, semB, sem_false s v ha hb, absorb, neg]
-  | .selI s r, v, ha, hb => by
-    simp only [Spec.allRoe, Spec.hasBad, Bool.and_eq_true, beq_iff_eq] at ha hb
+    simp [sem, semB, sem_false s v ha hk hb, absorb, neg]
+  | .selI s r, v, ha, hk, hb => by
+    simp only [Spec.allRoe, Spec.hasBad, Spec.keysOk, Bool.and_eq_true, beq_iff_eq] at ha hb hk
     obtain ⟨rfl, ha⟩ := ha
-    simp [sem, semB, sem_false s v ha hb, absorb]
-  | .andI l r, v, ha, hb => by
-    simp only [Spec.allRoe, Spec.hasBad, Bool.and_eq_true, beq_iff_eq] at ha hb
+    simp [sem, semB, sem_false s v ha hk hb, absorb]
+  | .andI l r, v, ha, hk, hb => by
+    simp only [Spec.allRoe, Spec.hasBad, Spec.keysOk, Bool.and_eq_true, beq_iff_eq] at ha hb hk
     obtain ⟨rfl, ha⟩ := ha
-    simp [sem, semB, (semL_false l v ha hb).1]
-  | .orI l r, v, ha, hb => by
-    simp only [Spec.allRoe, Spec.hasBad, Bool.and_eq_true, beq_iff_eq] at ha hb
+    simp [sem, semB, (semL_false l v ha hk hb).1]
+  | .orI l r, v, ha, hk, hb => by
+    simp only [Spec.allRoe, Spec.hasBad, Spec.keysOk, Bool.and_eq_true, beq_iff_eq] at ha hb hk
     obtain ⟨rfl, ha⟩ := ha
-    simp [sem, semB, (semL_false l v ha hb).2]
-  | .selCtx k p r, v, ha, _ => by
+    simp [sem, semB, (semL_false l v ha hk hb).2]
+  | .selCtx k p r, v, ha, hk, _ => by
     simp only [Spec.allRoe, beq_iff_eq] at ha
     subst ha
-    cases hg : valAt names (.dict (v.context names.length)) k.keys <;> simp [sem, semB, hg, absorb_false_ok]
-  | .bad, _, _, hb => by simp [Spec.hasBad] at hb
-theorem semL_false : ∀ (l : List Spec) (v : Item), allRoeL false l = true → hasBadL l = false →
+    rw [Spec.keysOk] at hk
+    rw [sem, semB]
+    exact selCtxSem_false_ok names k p v hk
+  | .bad, _, _, _, hb => by simp [Spec.hasBad] at hb
+theorem semL_false : ∀ (l : List Spec) (v : Item), allRoeL false l = true → keysOkL l = true → hasBadL l = false →
     semAll names false l v = .ok (semBAll names l v) ∧ semAny names false l v = .ok (semBAny names l v)
-  | [], v, _, _ => by simp [semAll, semAny, semBAll, semBAny]
-  | s :: rest, v, ha, hb => by
-    simp only [allRoeL, hasBadL, Bool.and_eq_true, Bool.or_eq_false_iff] at ha hb
-    have h1 := sem_false s v ha.1 hb.1
-    have h2 := semL_false rest v ha.2 hb.2
+  | [], v, _, _, _ => by simp [semAll, semAny, semBAll, semBAny]
+  | s :: rest, v, ha, hk, hb => by
+    simp only [allRoeL, hasBadL, keysOkL, Bool.and_eq_true, Bool.or_eq_false_iff] at ha hb hk
+    have h1 := sem_false s v ha.1 hk.1 hb.1
+    have h2 := semL_false rest v ha.2 hk.2 hb.2
     simp only [semAll, semAny, semBAll, semBAny, h1]
     cases semB names s v <;> simp [h2.1, h2.2]
 end
@@ -572,14 +629,9 @@ theorem sem_total : ∀ (s : Spec) (r : Bool) (v : Item), s.totalOn names v = tr
     simp only [Spec.totalOn, Spec.hasBad] at ht hb
     simp [sem, semB, (semL_total l r' v ht hb).2]
   | .selCtx k p r', _, v, ht, _ => by
-    simp only [Spec.totalOn] at ht
-    cases hg : valAt names (.dict (v.context names.length)) k.keys with
-    | none => simp [sem, semB, hg]
-    | some sub =>
-      simp only [hg] at ht
-      cases hp : p sub with
-      | ok b => simp [sem, semB, hg, hp, absorb]
-      | raise e => simp [hp] at ht
+    rw [Spec.totalOn] at ht
+    rw [sem, semB]
+    exact selCtxSem_of_isOk names k p v ht r'
   | .bad, _, _, _, hb => by simp [Spec.hasBad] at hb
 theorem semL_total : ∀ (l : List Spec) (r : Bool) (v : Item), totalOnL names v l = true → hasBadL l = false →
     semAll names r l v = .ok (semBAll names l v) ∧ semAny names r l v = .ok (semBAny names l v)
@@ -1129,6 +1181,255 @@ theorem wfl_replicate (n m : Nat) : WFL n (List.replicate m none) := by
   induction m with
   | zero => simp [WFL]
   | succ m ih => rw [List.replicate_succ, WFL_cons_none]; exact ih
+
+/-! ### the code's rule `selC`, rejection, decided forms -/
+
+theorem prefixesAsc_cons (k : Nat) (p : Path) :
+    prefixesAsc (k :: p) = [k] :: (prefixesAsc p).map (k :: ·) := by
+  unfold prefixesAsc
+  simp only [List.length_cons, List.range_succ_eq_map, List.map_cons, List.take_succ_cons, List.take_zero,
+    List.map_map]
+  rfl
+
+theorem ne_nil_of_mem_prefixesAsc {p q : Path} (h : q ∈ prefixesAsc p) : q ≠ [] := by
+  unfold prefixesAsc at h
+  simp only [List.mem_map, List.mem_range] at h
+  obtain ⟨n, hn, rfl⟩ := h
+  cases p with
+  | nil => simp at hn
+  | cons a t => simp
+
+theorem oppOf_tails (k : Nat) (I E : List Path) (c : Bool) :
+    oppOf (tailsNE k I) (tailsNE k E) c = tailsNE k (oppOf I E c) := by
+  cases c <;> rfl
+
+theorem sameOf_tails (k : Nat) (I E : List Path) (c : Bool) :
+    sameOf (tailsNE k I) (tailsNE k E) c = tailsNE k (sameOf I E c) := by
+  cases c <;> rfl
+
+theorem foldl_flip_map (I E : List Path) (k : Nat) : ∀ (l : List Path) (c : Bool), (∀ q ∈ l, q ≠ []) →
+    (l.map (k :: ·)).foldl (fun c q => if q ∈ oppOf I E c then !c else c) c =
+      l.foldl (fun c q => if q ∈ oppOf (tailsNE k I) (tailsNE k E) c then !c else c) c
+  | [], _, _ => rfl
+  | q :: l, c, h => by
+    simp only [List.map_cons, List.foldl_cons]
+    have hq : (k :: q ∈ oppOf I E c) ↔ q ∈ oppOf (tailsNE k I) (tailsNE k E) c := by
+      rw [oppOf_tails, mem_tailsNE]
+      simp [h q (by simp)]
+    rw [foldl_flip_map I E k l _ (fun x hx => h x (by simp [hx]))]
+    by_cases hm : k :: q ∈ oppOf I E c
+    · rw [if_pos hm, if_pos (hq.1 hm)]
+    · rw [if_neg hm, if_neg (fun h' => hm (hq.2 h'))]
+
+theorem selC_nil (d : Bool) : selC [] [] d = fun _ => d := by
+  funext p
+  induction p with
+  | nil => rfl
+  | cons k p ih => cases d <;> simpa [selC, oppOf, tailsNE, tailsOf] using ih
+
+theorem selC_cons (I E : List Path) (d : Bool) (k : Nat) :
+    (fun p => selC I E d (k :: p)) =
+      selC (tailsNE k I) (tailsNE k E) (if [k] ∈ oppOf I E d then !d else d) := by
+  funext p; rw [selC]
+
+/-- a node whose keys behave as `KeyCase` says, with sub-trees that follow the code's rule, follows it -/
+theorem node_specC (d : Bool) (I E : List Path) (keys : List Nat) (subs : List (Nat × Tree)) (g : Nat → Made)
+    (hkey : ∀ k, KeyCase (if d then E else I) (if d then I else E) g keys subs k)
+    (ihg : ∀ k t, g k = .ok t → ∀ v,
+      getV t v = keepV (selC (tailsNE k I) (tailsNE k E) (newIncl k (if d then E else I) d)) v) :
+    ∀ k l, getL (.node d keys subs) k l = keepL (selC I E d) k l := by
+  intro k l
+  induction l generalizing k with
+  | nil => simp [getL, keepL]
+  | cons x r ihl =>
+    cases x with
+    | none => simp [getL, keepL, ihl]
+    | some v =>
+      rw [getL_cons_some, keepL, ihl, selC_cons]
+      congr 1
+      have hopp : oppOf I E d = (if d then E else I) := rfl
+      rcases hkey k with ⟨hc, hk, ht, hs, hn⟩ | ⟨t, hc, hg, hl⟩ | ⟨hc, hl, ho, hs⟩
+      · simp only [List.contains_eq_mem, decide_eq_true_eq] at hc
+        have h1 : tailsNE k I = [] := by cases d <;> simp_all
+        have h2 : tailsNE k E = [] := by cases d <;> simp_all
+        rw [hopp, if_pos hk, h1, h2, selC_nil]
+        cases d
+        · simp [hc, keepV_true]
+        · simp [hc, keepV_false]
+      · simp only [List.contains_eq_mem, decide_eq_false_iff_not] at hc
+        simp only [List.contains_eq_mem, hc, decide_false, Bool.false_eq_true, if_false, hl, ihg k t hg v,
+          newIncl_eq, hopp]
+      · simp only [List.contains_eq_mem, decide_eq_false_iff_not] at hc
+        have h1 : tailsNE k I = [] := by
+          cases d
+          · exact tailsNE_nil_of_not_head k I ho
+          · exact tailsNE_nil_of_not_head k I hs
+        have h2 : tailsNE k E = [] := by
+          cases d
+          · exact tailsNE_nil_of_not_head k E hs
+          · exact tailsNE_nil_of_not_head k E ho
+        have h3 : [k] ∉ (if d then E else I) := single_not_mem_of_not_head k _ ho
+        rw [hopp, if_neg h3, h1, h2, selC_nil]
+        cases d
+        · simp [hc, hl, keepV_false]
+        · simp [hc, hl, keepV_true]
+
+theorem make_specC : ∀ (f : Nat) (I E : List Path) (d : Bool) (T : Tree), make f I E d = .ok T →
+    T.incl = d ∧ (∀ k l, getL T k l = keepL (selC I E d) k l) ∧ (∀ v, getV T v = keepV (selC I E d) v) := by
+  intro f
+  induction f with
+  | zero => intro I E d T h; simp [make] at h
+  | succ f ih =>
+    intro I E d T h
+    rw [make_succ] at h
+    obtain ⟨hextra, hall, hT⟩ := makeStep_ok_inv h
+    have hkey := make_key_cases _ _ _ hextra hall
+    have hL := node_specC d I E _ _ _ hkey (fun k t hg => (ih _ _ _ t hg).2.2)
+    rw [← hT] at hL
+    have hi : T.incl = d := by rw [hT]; rfl
+    refine ⟨hi, hL, ?_⟩
+    intro v
+    cases v with
+    | leaf a => rw [getV, keepV, hi]; cases d <;> rfl
+    | dict l => rw [getV, keepV, hi, hL]; cases d <;> rfl
+
+theorem makeStep_valueError_iff {opp same : List Path} {d : Bool} {g : Nat → Made}
+    (hf : ∀ k ∈ heads opp, (g k).isFuel = false) :
+    makeStep opp same d g = .valueError ↔
+      (∃ k, k ∈ heads same ∧ k ∉ heads opp) ∨
+      (∃ k, k ∈ heads opp ∧ isProper k opp same = false ∧ g k = .valueError) := by
+  unfold makeStep
+  simp only []
+  by_cases hextra : ((heads same).any fun k => !(heads opp).contains k) = true
+  · rw [if_pos hextra]
+    simp only [List.any_eq_true, Bool.not_eq_true', List.contains_eq_mem, decide_eq_false_iff_not] at hextra
+    simp only [true_iff]
+    exact Or.inl hextra
+  · rw [if_neg hextra]
+    have hne : ¬ ∃ k, k ∈ heads same ∧ k ∉ heads opp := by
+      simpa only [List.any_eq_true, Bool.not_eq_true', List.contains_eq_mem, decide_eq_false_iff_not] using hextra
+    have hfuel : ¬ ((List.map (fun k => (k, g k))
+        (List.filter (fun k => !isProper k opp same) (heads opp).eraseDups)).any fun kt => kt.snd.isFuel) = true := by
+      simp only [List.any_eq_true, List.mem_map, List.mem_filter, List.mem_eraseDups]
+      rintro ⟨kt, ⟨k, ⟨hk, _⟩, rfl⟩, hfk⟩
+      rw [hf k hk] at hfk
+      cases hfk
+    rw [if_neg hfuel]
+    constructor
+    · intro h
+      right
+      split at h
+      · rename_i hve
+        simp only [List.any_eq_true, List.mem_map, List.mem_filter, List.mem_eraseDups, Bool.not_eq_true'] at hve
+        obtain ⟨kt, ⟨k, ⟨hk, hp⟩, rfl⟩, hv⟩ := hve
+        refine ⟨k, hk, hp, ?_⟩
+        cases hg : g k with
+        | valueError => rfl
+        | ok t => simp [hg, Made.isValueError] at hv
+        | fuel => simp [hg, Made.isValueError] at hv
+      · cases h
+    · rintro (h | ⟨k, hk, hp, hg⟩)
+      · exact absurd h hne
+      · rw [if_pos]
+        simp only [List.any_eq_true, List.mem_map, List.mem_filter, List.mem_eraseDups, Bool.not_eq_true']
+        exact ⟨(k, g k), ⟨k, ⟨hk, hp⟩, rfl⟩, by rw [hg]; rfl⟩
+
+theorem mem_sameOf_or {I E : List Path} {c : Bool} {p : Path} (h : p ∈ sameOf I E c) (d : Bool) :
+    p ∈ sameOf I E d ∨ p ∈ oppOf I E d := by
+  cases c <;> cases d <;> simp_all [sameOf, oppOf]
+
+/-- `prefixesDesc p` are exactly the non-empty prefixes of `p` … -/
+theorem mem_prefixesDesc (p q : Path) : q ∈ prefixesDesc p ↔ q ≠ [] ∧ q <+: p := by
+  unfold prefixesDesc
+  simp only [List.mem_map, List.mem_reverse, List.mem_range]
+  constructor
+  · rintro ⟨n, hn, rfl⟩
+    refine ⟨?_, List.take_prefix _ _⟩
+    cases p with
+    | nil => simp at hn
+    | cons a t => simp
+  · rintro ⟨hne, hpre⟩
+    have hlen := hpre.length_le
+    have hq : 0 < q.length := List.length_pos_iff.2 hne
+    refine ⟨q.length - 1, by omega, ?_⟩
+    rw [show q.length - 1 + 1 = q.length by omega]
+    exact (List.prefix_iff_eq_take.1 hpre).symm
+
+theorem mem_prefixesAsc (p q : Path) : q ∈ prefixesAsc p ↔ q ≠ [] ∧ q <+: p := by
+  have : prefixesDesc p = (prefixesAsc p).reverse := by
+    unfold prefixesDesc prefixesAsc; rw [List.map_reverse]
+  rw [← mem_prefixesDesc, this, List.mem_reverse]
+
+theorem prefix_snoc_iff (pre : Path) (k : Nat) (p : Path) : (pre ++ [k]) <+: p ↔ ∃ t, pre ++ k :: t = p := by
+  constructor
+  · rintro ⟨t, rfl⟩; exact ⟨t, by simp⟩
+  · rintro ⟨t, rfl⟩; exact ⟨t, by simp⟩
+
+mutual
+theorem mem_allPathsV : ∀ (v : Val) (p : Path), p ∈ allPathsV v ↔ (atPath v p).isSome = true
+  | .leaf a, p => by
+    rw [allPathsV]
+    cases p with
+    | nil => simp [atPath_nil]
+    | cons k q => simp [atPath_leaf_cons]
+  | .dict l, p => by
+    rw [allPathsV]
+    cases p with
+    | nil => simp [atPath_nil]
+    | cons k q =>
+      have := mem_allPathsL l 0 k q
+      simp only [Nat.zero_add] at this
+      simp only [List.mem_cons, reduceCtorEq, false_or, atPath_dict_cons]
+      rw [← this]
+theorem mem_allPathsL : ∀ (l : Slots) (k j : Nat) (q : Path),
+    ((k + j) :: q) ∈ allPathsL k l ↔ ((slotGet l j).bind (fun w => atPath w q)).isSome = true
+  | [], k, j, q => by simp [allPathsL, slotGet_nil]
+  | none :: r, k, j, q => by
+    rw [allPathsL]
+    cases j with
+    | zero =>
+      simp only [slotGet_cons_zero, Option.bind_none, Option.isSome_none, Bool.false_eq_true, iff_false]
+      intro h
+      exact absurd h (not_mem_allPathsL_lt r (k + 1) k q (by omega))
+    | succ j =>
+      have := mem_allPathsL r (k + 1) j q
+      rw [show k + 1 + j = k + (j + 1) by omega] at this
+      rw [this, slotGet_cons_succ]
+  | some v :: r, k, j, q => by
+    rw [allPathsL, List.mem_append]
+    cases j with
+    | zero =>
+      simp only [Nat.add_zero, List.mem_map, List.cons.injEq, true_and, exists_eq_right, slotGet_cons_zero,
+        Option.bind_some]
+      rw [mem_allPathsV v q]
+      constructor
+      · rintro (h | h)
+        · exact h
+        · exact absurd h (not_mem_allPathsL_lt r (k + 1) k q (by omega))
+      · exact Or.inl
+    | succ j =>
+      have := mem_allPathsL r (k + 1) j q
+      rw [show k + 1 + j = k + (j + 1) by omega] at this
+      rw [this, slotGet_cons_succ]
+      constructor
+      · rintro (h | h)
+        · simp only [List.mem_map, List.cons.injEq] at h
+          obtain ⟨_, _, h1, _⟩ := h
+          omega
+        · exact h
+      · exact Or.inr
+theorem not_mem_allPathsL_lt : ∀ (l : Slots) (k i : Nat) (q : Path), i < k → (i :: q) ∉ allPathsL k l
+  | [], _, _, _, _ => by simp [allPathsL]
+  | none :: r, k, i, q, h => by
+    rw [allPathsL]; exact not_mem_allPathsL_lt r (k + 1) i q (by omega)
+  | some v :: r, k, i, q, h => by
+    rw [allPathsL, List.mem_append]
+    rintro (h' | h')
+    · simp only [List.mem_map, List.cons.injEq] at h'
+      obtain ⟨_, _, h1, _⟩ := h'
+      omega
+    · exact not_mem_allPathsL_lt r (k + 1) i q (by omega) h'
+end
 
 /-! ## Part 3 — `GroupBy` -/
 
